@@ -394,6 +394,17 @@ def build_ops(D):
         return [gen_shape(rng, rng.choice(SHAPE_CLASSES)),
                 gen_shape(rng, rng.choice(SHAPE_CLASSES))], (), {}
     ops.append(Op("kron", 2, lambda a, b: np.kron(a, b), kron_shapes, weight=2))
+
+    def mmdout_shapes(rng):
+        s0 = (rng.randint(1, 5), rng.randint(1, 5))
+        k = rng.choice([1, 2, 3, 4])
+        v = rng.choice([(1, 0), (0, 1), (2, 0)])
+        return [s0, (k, s0[1]), (s0[0], k)], (complex(*v),), {}
+    ops.append(Op("matmul_dag[out]", 3, lambda a, b, o, v: o + v * (a @ b.conj().T),
+                  mmdout_shapes, out=False,
+                  getter=lambda l, r, o, v: D.matmul_dag(l, r, v, o),
+                  combos=[("Dense", "CSR", "Dense"), ("Dense", "Dense", "Dense")],
+                  no_lookup=True))
     ops.append(Op("kron_transpose", 2, lambda a, b: np.kron(a.T, b), kron_shapes))
 
     ops.append(Op("trace", 1, lambda a: np.trace(a), lambda rng: ([sq_shape(rng)], (), {}),
@@ -851,7 +862,7 @@ def compare_result(D, op, res, ref, out_t, args, arrays, extra, kw):
         if not np.array_equal(args[0].to_array(), arrays[0]):
             return ("input-modified", "split_columns modified its argument")
         return None
-    if op.name == "matmul[out]":
+    if op.name in ("matmul[out]", "matmul_dag[out]"):
         got = res.to_array() if isinstance(res, D.Data) else None
         if got is None or got.shape != ref.shape or not np.array_equal(got, ref):
             return ("wrong-entries", "matmul(l, r, scale, out) returned something else than "
@@ -975,6 +986,10 @@ def diagnose(D, op, combo, symptom, msg, res, ref, arrays, args, extra, kw):
                 wrong = ref.ravel(order="F").reshape(ref.shape)
                 if np.array_equal(args[2].to_array(), wrong):
                     return ("matmul_csr_dense_dense.out_order", "fortran-buffer-copied-into-c-out")
+        if nm == "matmul_dag[out]" and combo[1] == "CSR" and symptom in ("wrong-entries",
+                                                                         "out-not-updated"):
+            if args[0].fortran and not args[2].fortran and min(ref.shape) > 1:
+                return ("matmul_csr_dense_dense.out_order", "fortran-buffer-copied-into-c-out")
         if nm == "inner" and symptom == "accepted":
             l, r = arrays
             if (l.shape[0] == 1 or l.shape[1] == 1) and r.shape[1] == 1 \
